@@ -17,3 +17,11 @@ Print Assumptions C05_holds.
 Theorem C05_flag_iff_nobody : forall c : scase, wf_case c -> flag_coherent (sfinal_from store0 (sc_steps c)).
 Proof. exact reachable_flag_coherent. Qed.
 Print Assumptions C05_flag_iff_nobody.
+
+(* PurgeTombstones removes exactly the documents without a body, in every collection *)
+From Rosmar Require Import KvFrame.
+Theorem C05_purge : forall s x k, tables_ok s ->
+  get_doc (sr_store (sstep s x SPurge)) k
+  = match get_doc s k with Some r => if is_some (r_value r) then Some r else None | None => None end.
+Proof. exact C05_purge_exact. Qed.
+Print Assumptions C05_purge.
